@@ -88,7 +88,7 @@ def summary(r):
     c = r["case"]
     p = r["problems"][0] if r["problems"] else "?"
     if p.startswith("simulation exited"):
-        return "simulation aborts (%s)" % p.split("with ")[1]
+        return "simulation aborts (%s)" % p.split("(", 1)[1].rstrip(")")
     m = re.match(r"observed (\w+)@([0-9.]+), allowed (.*)", p)
     if m:
         got, at, exp = m.group(1), float(m.group(2)), re.sub(r"@[0-9.]+", "", m.group(3))
